@@ -501,6 +501,22 @@ def register(reg):
         p0 = v.get('__old__', {}).get('self._pos', rd.fields['_pos'])
         s = rd.fields['s']
         ctx = it.ctx
+        # reading is a function of (s, position, parsing state) (lemma:reads): a token read again from the same position
+        # under the same parsing state object is the same token
+        memo = ctx.ghost.setdefault('token_memo', [])
+        for (rd_, ps_, pos_, tok_) in memo:
+            if rd_ is rd and ps_ is v.get('parsing_state') and \
+                    (str(simp(zint(pos_))) == str(simp(zint(p0))) or ctx.provable(zint(pos_) == zint(p0))):
+                cp = Obj(tok_.cls, dict(tok_.fields), tag=tok_.tag, is_input=False)     # an equal token, not the same object
+                ctx.ghost['last_token'] = cp
+                return cp
+        t_ = _make_any_token(it, env, rd, p0, s)
+        memo.append((rd, v.get('parsing_state'), p0, t_))
+        return t_
+
+    def _make_any_token(it, env, rd, p0, s):
+        v = env.vars
+        ctx = it.ctx
         a = ctx.fresh_int('tok_pos')
         e = ctx.fresh_int('tok_end')
         ctx.assume(z3.And(zint(p0) <= a, a < e, e <= zint(V.slen(s))))
